@@ -164,6 +164,11 @@ def check_pair(ctx, stack, t1, t2, rng):
         rstack = [(build_real(yp, a, vmap), build_real(yp, b, vmap)) for a, b in stack]
         held = []
         try:
+            rx, ry = build_real(yp, x, vmap), build_real(yp_b, y, vmap)
+            early = None
+            if how_created == 'early':
+                # the unification is created first and only STARTED under the stack of bindings
+                early = E.unify(rx, ry)
             for a, b in rstack:
                 g = iter(E.unify(a, b))
                 held.append(g)
@@ -174,8 +179,8 @@ def check_pair(ctx, stack, t1, t2, rng):
             pre = snap_real(E, robs)
             if pre != exp_pre:
                 return ('prestate', {'expected': exp_pre, 'got': pre})
-            rx, ry = build_real(yp, x, vmap), build_real(yp_b, y, vmap)
-            g = iter(E.unify(rx, ry))
+            g = iter(early if early is not None else E.unify(rx, ry))
+            early = None        # (the harness must not keep a second reference: 'drop' means dropped)
             yields = 0
             at = None
             same = None
@@ -209,10 +214,13 @@ def check_pair(ctx, stack, t1, t2, rng):
                 g.close()
 
     how = rng.choice(['exhaust', 'exhaust', 'exhaust', 'close', 'close', 'drop', 'throw'])
+    how_created = 'early' if (stack and rng.random() < 0.35) else 'late'
+    if how_created == 'early':
+        c['created_before_the_bindings_it_starts_under'] = 1
     st, r = real_run(t1, t2, how)
     if st != 'ok':
         return ({'kind': 'harness:' + st, 'detail': r}, {})
-    w = {'stack': stack, 't1': t1, 't2': t2, 'how': how}
+    w = {'stack': stack, 't1': t1, 't2': t2, 'how': how, 'created': how_created}
     if exp is None:
         if r['yields'] != 0:
             return ({'kind': 'yields_but_not_unifiable', 'detail': {'yields': r['yields'], 'at': r['at']}, 'witness': w}, c)
